@@ -184,6 +184,7 @@ def explore(fn, max_paths=20000, timeout_ms=10000, loop_bound=100000, on_path=No
         ctx = Ctx(prefix, timeout_ms=timeout_ms, loop_bound=loop_bound)
         if concrete_loop_bound is not None:
             ctx.concrete_loop_bound = concrete_loop_bound
+        ctx.deadline = deadline  # (loops of the interpreted code look at it: one endless path must not outlive the budget)
         V.CUR = ctx
         try:
             try:
